@@ -108,6 +108,46 @@ def finish(sid, src, meta, res, wt):
     return 0
 
 
+def harmless(hid, patch, checks):
+    """A change under which every property still holds: apply it in a scratch worktree, run the crate's suite and the given
+    checks (default: all 20) against it; expected: exit 0 everywhere, no VIOLATION, no TOOL-ERROR (DRIFT is fine)."""
+    wt = "/tmp/cf_%s" % hid
+    sh("git -C /repo worktree remove --force %s" % wt)
+    shutil.rmtree(wt, ignore_errors=True)
+    rc, out = sh("git -C /repo worktree add -q %s HEAD" % wt)
+    if rc != 0:
+        raise SystemExit("worktree: " + out)
+    res = {"id": hid, "base_commit": sh("git -C /repo rev-parse --short HEAD")[1].strip(), "checks": {}}
+    try:
+        rc, out = sh("git apply %s" % patch, cwd=wt)
+        res["patch_applies"] = rc == 0
+        if rc == 0:
+            rc, out = sh("cargo test --workspace --no-fail-fast --offline 2>&1 | grep -E '^test result|FAILED|error(\\[|:)' | head -20", cwd=wt)
+            counts = passed_counts(out)
+            res["baseline_with_change"] = {"passed": counts, "ok": "FAILED" not in out and "error" not in out and 68 in counts and 42 in counts}
+            for c in checks or ["C%02d" % i for i in range(1, 21)]:
+                t0 = time.time()
+                rc, out = sh("./bin/check %s --tier quick 2>&1 | tail -40" % c, cwd=VERIF, env={"RV_REPO": wt}, timeout=5400)
+                viol = re.findall(r"^VIOLATION property=(\w+)", out, re.M)
+                verdict = "ALARM" if viol else ("TOOL-ERROR" if "TOOL-ERROR" in out or "Traceback" in out else ("quiet+DRIFT" if "DRIFT property" in out else "quiet"))
+                first = re.findall(r"^DRIFT property=.*$", out, re.M)
+                res["checks"][c] = {"verdict": verdict, "wall_s": round(time.time() - t0), "drift": (first[0][:260] if first else ""),
+                                    "tail": out[-900:] if verdict in ("ALARM", "TOOL-ERROR") else ""}
+                print("  check %s on %s: %s" % (c, hid, verdict), flush=True)
+    finally:
+        sh("git -C /repo worktree remove --force %s" % wt)
+        shutil.rmtree(wt, ignore_errors=True)
+        shutil.rmtree(os.path.join(VERIF, "work", "alt", os.path.basename(wt)), ignore_errors=True)
+    out = os.path.join(VERIF, "seeded", "harmless")
+    os.makedirs(out, exist_ok=True)
+    shutil.copy(patch, os.path.join(out, hid + ".diff"))
+    json.dump(res, open(os.path.join(out, hid + ".result.json"), "w"), indent=1)
+    print({c: v["verdict"] for c, v in res["checks"].items()})
+    return 0
+
+
 if __name__ == "__main__":
+    if sys.argv[1] == "harmless":
+        sys.exit(harmless(sys.argv[2], sys.argv[3], sys.argv[4:]))
     if sys.argv[1] == "confirm":
         sys.exit(confirm(sys.argv[2], sys.argv[3], sys.argv[4:]))
